@@ -382,6 +382,25 @@ EnvelopeStep ==
   [][/\ \A k \in QKeys : StepOK(fq[k], fq'[k])
      /\ \A k \in ZKeys : StepOK(fz[k], fz'[k])]_vars
 
+(* the part of the step rule the property statement itself demands (the trace monitor
+   uses this one: the idle reset and "never touched while active" are drift-level) *)
+StepOKProp(old, new) ==
+  NewGen(old, new) =>
+    /\ Min <= new.bo /\ new.bo <= Max
+    /\ (old = None => new.bo = Min)
+    /\ (old # None => new.bo <= 2 * old.bo)
+EnvelopeStepProp ==
+  [][/\ \A k \in QKeys : StepOKProp(fq[k], fq'[k])
+     /\ \A k \in ZKeys : StepOKProp(fz[k], fz'[k])]_vars
+
+(* a request creates failure state only for what failed: its own question, and the zone
+   whose every server failed *)
+OnlyWhatFailed ==
+  [][(last'.op \in {"Request", "Finish"}) =>
+       LET k == last'.k  o == last'.a[Len(last'.a) - 1]  z == last'.a[Len(last'.a)] IN
+       /\ \A x \in QKeys : NewGen(fq[x], fq'[x]) => (x = k /\ o \in {"servfail", "authfail"})
+       /\ \A x \in ZKeys : NewGen(fz[x], fz'[x]) => (o = "authfail" /\ x = <<z, k[3]>>)]_vars
+
 (* a hit for q comes from an entry equal in all five key dimensions, or from a zone
    at-or-above q.name of the same class whose every server failed *)
 ContainOK(k, L) ==
